@@ -89,20 +89,35 @@ func runR151(c *core.Ctx) {
 			errObj := core.ObjOf(inf, as.Lhs[len(as.Lhs)-1])
 			// path automaton from the call: 1 = err holds this call's verdict, 2 = known non-nil, 3 = known nil
 			okErr, lost := false, false
+			// a plain copy `outer = err` made while err is known non-nil carries the verdict (the caller's variable after
+			// the code was split into a helper): bit 4 = the copy still holds it
+			var cp types.Object
 			if errObj != nil {
 				core.NewFlow(c.M, inf, fd.Body).Run(&core.Automaton{
 					Init: 0,
-					Node: func(st int, n ast.Node) int {
+					Node: func(full int, n ast.Node) int {
 						if n == ast.Node(as) {
 							return 1
 						}
+						st, held := full&3, full&4
 						switch x := n.(type) {
 						case *ast.AssignStmt:
-							for _, l := range x.Lhs {
-								if core.ObjOf(inf, l) == errObj && (st == 1 || st == 2) {
-									if st == 2 {
+							for i, l := range x.Lhs {
+								lo := core.ObjOf(inf, l)
+								if lo == errObj && (st == 1 || st == 2) {
+									if st == 2 && held == 0 {
 										lost = true
 									}
+									return 0 // once the copy was made the original may be reused
+								}
+								if lo != nil && lo != errObj && st == 2 && len(x.Lhs) == len(x.Rhs) {
+									if core.ObjOf(inf, x.Rhs[i]) == errObj && (cp == nil || cp == lo) {
+										cp = lo
+										return st | 4
+									}
+								}
+								if lo != nil && lo == cp && held != 0 {
+									lost = true // the copy is overwritten before it was returned
 									return 0
 								}
 							}
@@ -110,7 +125,7 @@ func runR151(c *core.Ctx) {
 							if st == 2 {
 								ret := false
 								for _, r := range x.Results {
-									if mentions(inf, r, errObj) {
+									if mentions(inf, r, errObj) || held != 0 && cp != nil && mentions(inf, r, cp) {
 										ret = true
 									}
 								}
@@ -121,11 +136,12 @@ func runR151(c *core.Ctx) {
 								}
 							}
 						}
-						return st
+						return full
 					},
-					Edge: func(st int, facts []core.Fact) (int, bool) {
+					Edge: func(full int, facts []core.Fact) (int, bool) {
+						st := full & 3
 						for _, f := range facts {
-							if e, nonNil, ok := core.NilTest(inf, f); ok && core.ObjOf(inf, e) == errObj {
+							if e, nonNil, ok := core.NilTest(inf, f); ok && (core.ObjOf(inf, e) == errObj || full&4 != 0 && cp != nil && core.ObjOf(inf, e) == cp) {
 								switch st {
 								case 1:
 									if nonNil {
@@ -134,16 +150,16 @@ func runR151(c *core.Ctx) {
 									return 3, true
 								case 2:
 									if !nonNil {
-										return st, false // known non-nil: the nil edge is infeasible
+										return full, false // known non-nil: the nil edge is infeasible
 									}
 								case 3:
 									if nonNil {
-										return st, false
+										return full, false
 									}
 								}
 							}
 						}
-						return st, true
+						return full, true
 					},
 				})
 			}
